@@ -31,6 +31,13 @@ pub mod vq {
         ensures r == be32(b[0], b[1], b[2], b[3])
     { u32::from_be_bytes(b) }
 
+    /// R2c shim for slice -> array `try_into().unwrap()`.
+    #[verifier::external_body]
+    pub fn vq_slice_to_array<const N: usize>(s: &[u8]) -> (r: [u8; N])
+        requires s@.len() == N
+        ensures r@ == s@
+    { s.try_into().unwrap() }
+
     pub assume_specification<T, E, F> [core::result::Result::<T, E>::or] (a: Result<T, E>, b: Result<T, F>) -> (r: Result<T, F>)
         where E: core::marker::Destruct, F: core::marker::Destruct, T: core::marker::Destruct,
         ensures a is Ok ==> r == Ok::<T,F>(a->Ok_0), a is Err ==> r == b;
